@@ -142,7 +142,10 @@ func init() {
 			c.m.spawn(c.t, c.args[0], nil, c.ins)
 			c.ret(nil)
 		},
-		"verifYield": func(c *stubCtx) { c.ret(nil) },
+		"verifYield": func(c *stubCtx) {
+			c.t.yielded = true
+			c.ret(nil)
+		},
 		"verifObserve": func(c *stubCtx) {
 			tag, _ := concreteStr(c.args[0].(Str))
 			var parts []string
@@ -308,6 +311,7 @@ func init() {
 			ch := c.m.newChan(1, nil)
 			ch.Timer = true
 			ch.Deadline = smt.Add(c.m.clock(), c.args[0].(*smt.Term))
+			c.m.timers = append(c.m.timers, ch)
 			c.ret(ch)
 		},
 		"time.Since": func(c *stubCtx) {
@@ -640,6 +644,7 @@ func (m *Machine) timeNow() Value { return mkTime(m.clock()) }
 
 func (m *Machine) advanceClock(d *smt.Term) {
 	m.now = smt.Add(m.clock(), d)
+	m.checkTimers()
 }
 
 // callMethod invokes method name on interface value recv without advancing the caller; k receives the result.
